@@ -45,7 +45,7 @@ type FileGenOpts struct {
 	// encoded size would exceed what one record can hold are the encoder's documented FIXME.
 }
 
-var utf8Pool = []string{"\uFFFD", "a", "Zz", "fēnix", "日本", "éàü", "Edge 1030", "x", "ß", "0123456789", "Größe", "😀", "abc def"}
+var utf8Pool = []string{"\uFFFD", "a", "Zz", "fēnix", "日本", "éàü", "Edge 1030", "x", "ß", "0123456789", "Größe", "😀", "abc def", "\uFEFF", "\uFEFFbom", " lead", "trail ", "\ttab", "nl\n", "\u200b", "\x01c", "\x7f", "e\u0301"}
 
 // genString returns a valid UTF-8 string of at most max bytes.
 func genString(rng *Rand, max int) string {
@@ -611,6 +611,68 @@ func EditInPlace(f *fit.File, seed uint64) (edited int) {
 		}
 	}
 	return edited
+}
+
+// VaryLengths gives every string field and every numeric array field of every message of f's
+// container a value whose length is a function of (variant, field position): the same File
+// shape in several "sizes", the way one device writes files that differ in a name or a list. It
+// also covers fields for which the profile gives no size. No expectation about what Encode
+// keeps of such values is attached; the users compare calls with calls.
+func VaryLengths(f *fit.File, variant int) (set int) {
+	if f == nil {
+		return 0
+	}
+	cont := Container(f, byte(f.FileId.Type))
+	if cont == nil {
+		return 0
+	}
+	cv := reflect.ValueOf(cont).Elem()
+	specs := Profile().Files[byte(f.FileId.Type)]
+	words := []string{"Alpe", "Col du Galibier", "x", "Passo dello Stelvio, east ramp from Prato", "fēnix", "0123456789abcdef0123456789abcdef01234567"}
+	doMsg := func(mv reflect.Value, salt int) {
+		for i := 0; i < mv.NumField(); i++ {
+			fv := mv.Field(i)
+			switch {
+			case fv.Kind() == reflect.String:
+				fv.SetString(words[(variant*7+i+salt)%len(words)])
+				set++
+			case fv.Kind() == reflect.Slice && fv.Len() > 0:
+				switch fv.Type().Elem().Kind() {
+				case reflect.Uint8, reflect.Uint16, reflect.Uint32, reflect.Int8, reflect.Int16, reflect.Int32:
+					n := 1 + (variant*3+i+salt)%6
+					sl := reflect.MakeSlice(fv.Type(), n, n)
+					for k := 0; k < n; k++ {
+						sl.Index(k).Set(fv.Index(k % fv.Len()))
+					}
+					fv.Set(sl)
+					set++
+				}
+			}
+		}
+	}
+	for j := 0; j < cv.NumField(); j++ {
+		fv := cv.Field(j)
+		switch {
+		case fv.Kind() == reflect.Ptr && fv.Type().Elem().Kind() == reflect.Struct:
+			if fv.IsNil() {
+				fv.Set(reflect.New(fv.Type().Elem()))
+				// all-invalid message of that type, then the strings
+				if j < len(specs) {
+					if nm := fit.VerifNewMesg(specs[j].Global); nm.IsValid() && nm.Elem().Type() == fv.Type().Elem() {
+						fv.Elem().Set(nm.Elem())
+					}
+				}
+			}
+			doMsg(fv.Elem(), j)
+		case fv.Kind() == reflect.Slice:
+			for k := 0; k < fv.Len(); k++ {
+				if mp := fv.Index(k); mp.Kind() == reflect.Ptr && !mp.IsNil() && mp.Elem().Kind() == reflect.Struct {
+					doMsg(mp.Elem(), j+k)
+				}
+			}
+		}
+	}
+	return set
 }
 
 // ShareArrays rebuilds every array field (slice of numbers) of every message of f's container
